@@ -144,17 +144,37 @@ Theorem C10_fix_reports_agree : forall c h h1 r1 h0 r0,
 Proof. exact hdr_reports_agree. Qed.
 Print Assumptions C10_fix_reports_agree.
 
+(* the same three facts on header BYTES: check_bytes = encode o check_hdr o decode.  Every value a
+   repair writes fits the width / count of its field (fixv_fits, over the regenerated layouts), so the
+   repaired header re-encodes and decodes to itself *)
+Theorem C10_fix_idempotent_bytes : forall c be b b1 r1, bytes_ok b -> zlen b = size_of c ->
+  check_bytes c true be b = Some (b1, r1) ->
+  zlen b1 = size_of c /\ exists r2, check_bytes c true be b1 = Some (b1, r2).
+Proof. exact bytes_fix_idempotent. Qed.
+Print Assumptions C10_fix_idempotent_bytes.
+
+Theorem C10_fix_noop_on_clean_bytes : forall c be b b0 r0, bytes_ok b -> zlen b = size_of c ->
+  check_bytes c false be b = Some (b0, r0) ->
+  b0 = b /\ (Forall (fun r => level r = 0) r0 -> exists r1, check_bytes c true be b = Some (b, r1)).
+Proof. exact bytes_fix_noop_on_clean. Qed.
+Print Assumptions C10_fix_noop_on_clean_bytes.
+
+Theorem C10_fix_clears_bytes : forall c be b b1 r1, bytes_ok b -> zlen b = size_of c ->
+  check_bytes c true be b = Some (b1, r1) ->
+  exists r2, check_bytes c false be b1 = Some (b1, r2)
+    /\ Forall (fun r => level r = 0 \/ unfixable (rmsg r) = true) r2.
+Proof. exact bytes_fix_clears. Qed.
+Print Assumptions C10_fix_clears_bytes.
+
 (* decoded headers fit, so the four theorems above apply to every header object *)
 Theorem C10_decoded_fits : forall c be b, bytes_ok b -> zlen b = size_of c ->
   hdr_fits (layout_of c) (decode_struct (layout_of c) be b) = true.
 Proof. intros c be b Hb Hl. apply decode_fits; [assumption|]. rewrite layouts_size. lia. Qed.
 Print Assumptions C10_decoded_fits.
 
-(* conversion dst.from_header(src, check=False).  FULL STATEMENT also has: get_shape dst h' =
-   get_shape src h and get_zooms dst h' = the cast source zooms; those two clauses are not proved
-   (FreeSurfer shape hacks, float casts) and are covered by the correspondence check and the
-   direct predicate only.  Proved: the datatype code and every same-named field of equal width and
-   kind that the conversion does not re-derive (magic, datatype, bitpix, dim, pixdim, glmin). *)
+(* conversion dst.from_header(src, check=False): the datatype code and every same-named field of
+   equal width and kind that the conversion does not re-derive (magic, datatype, bitpix, dim, pixdim,
+   glmin) are preserved ... *)
 Theorem C10_convert_preserves_partial : forall src dst h h',
   from_header src dst false h = COk h' -> hdr_fits (layout_of src) h = true ->
   (forall i fs fd, find_field i (layout_of src) = Some fs -> find_field i (layout_of dst) = Some fd ->
@@ -168,6 +188,22 @@ Proof.
   - intros Hf Hs. now apply (convert_preserves_dtype src dst h h').
 Qed.
 Print Assumptions C10_convert_preserves_partial.
+
+(* ... and so are the shape and the zooms (cast to the destination's float width), for every shape
+   without the FreeSurfer conventions of NIfTI-1 (1 to 7 extents in 0..32767, not (27307, 1, 6, ...)).
+   Not proved: shapes that go through the large-vector / ico7 conventions (covered by the
+   correspondence check and the direct predicate). *)
+Theorem C10_convert_preserves_shape_zooms : forall src dst h h' shape,
+  analyze_family src = true -> analyze_family dst = true -> hdr_fits (layout_of src) h = true ->
+  from_header src dst false h = COk h' -> get_shape src h = COk shape -> plain_shape shape ->
+  get_shape dst h' = COk shape
+  /\ get_zooms dst h' = map (f_cast (pix_w src) (pix_w dst)) (get_zooms src h).
+Proof.
+  intros src dst h h' shape Hs Hd Hf H Hsh Hp. split.
+  - now apply (convert_preserves_shape src dst h h' shape).
+  - now apply (convert_preserves_zooms src dst h h' shape).
+Qed.
+Print Assumptions C10_convert_preserves_shape_zooms.
 
 (* non-vacuity: a populated big-endian NIfTI-1 header with three seeded defects (sizeof_hdr,
    bitpix, negative pixdim) is repaired, the repair is stable, and its byte order is detected *)
